@@ -72,4 +72,12 @@ func checkC04(c *Ctx, r *rep.Report) {
 	}
 	ruleScMinExact(r, p, rl)
 	ruleScMinControl(r)
+	// G/B: every verifier mode gates on exactly this predicate
+	if fl := rootFlags(r, p, rl); fl != nil {
+		paths := ruleVerifyCore(r, p, rl, fl, "G-verify")
+		ruleUsesOnly(r, p, "G-S-consumers", "verifyCore", paths, "sig[32:64]", isRegion("P2", 32, 64), map[string]bool{"scMin": true, "modm.Expand": true}, throughOps)
+		ruleNoPanic(r, p, rl)
+		ruleVerifyWrappers(r, p, rl, fl)
+		ruleBatchAll(c, r, p, rl, fl)
+	}
 }
